@@ -253,7 +253,7 @@ pub fn run(cfg: &RunCfg, out: &Out) {
 fn scenario(seed: u64, k: u64, out: &Out) {
     let mut rng = Rng::new(seed);
     let (now, base_ts) = time_base();
-    let mut params = gen_params(&mut rng, seed, base_ts);
+    let mut params = gen_params_with_jumps(&mut rng, seed, base_ts);
     // "busy" scenarios: scripts registered on a chain with transactions and fetch_header / fetch_transaction calls, so that
     // GetBlocksProof / GetBlocks / GetTransactionsProof requests exist, some of them never answered
     let busy = rng.chance(1, 2);
